@@ -981,8 +981,60 @@ def inline_test_flags_function(fn) -> int:
                     # must be a statement of the function's top-level block (dominates every use)
                     if any(st is b for b in fn.body):
                         cands[tg[0].id] = st
+    # adjacent flag: `flag = <test over names / attributes>` read once, by the test of the NEXT statement
+    def attr_test(e) -> bool:
+        if isinstance(e, ast.BoolOp):
+            return all(attr_test(v) for v in e.values)
+        if isinstance(e, ast.UnaryOp) and isinstance(e.op, ast.Not):
+            return attr_test(e.operand)
+        if isinstance(e, ast.Compare):
+            return all(attr_test(x) for x in [e.left] + list(e.comparators))
+        if isinstance(e, ast.Call) and isinstance(e.func, ast.Name) and e.func.id in ("bool", "len", "isinstance") and not e.keywords:
+            return all(attr_test(a) or isinstance(a, ast.Tuple) for a in e.args)
+        if isinstance(e, ast.Attribute):
+            return attr_test(e.value)
+        return isinstance(e, (ast.Name, ast.Constant))
+
+    def _adjacent(stmts):
+        for a_, b_ in zip(stmts, stmts[1:]):
+            if isinstance(a_, (ast.Assign, ast.AnnAssign)) and getattr(a_, "value", None) is not None and isinstance(b_, ast.If):
+                tg = a_.targets if isinstance(a_, ast.Assign) else [a_.target]
+                if len(tg) == 1 and isinstance(tg[0], ast.Name) and stores.get(tg[0].id, 0) == 1 and tg[0].id not in nested_names and tg[0].id not in cands and attr_test(a_.value) and not isinstance(a_.value, (ast.Name, ast.Constant, ast.Attribute)):
+                    reads = [x for x in ast.walk(fn) if isinstance(x, ast.Name) and x.id == tg[0].id and isinstance(x.ctx, ast.Load)]
+                    in_test = [x for x in ast.walk(b_.test) if isinstance(x, ast.Name) and x.id == tg[0].id]
+                    if len(reads) == 1 and len(in_test) == 1 and any(a_ is b for b in stmts):
+                        adj[tg[0].id] = (a_, stmts)
+        for st in stmts:
+            if isinstance(st, (ast.FunctionDef, ast.AsyncFunctionDef, ast.ClassDef)):
+                continue
+            for fld in ("body", "orelse", "finalbody"):
+                lst = getattr(st, fld, None)
+                if isinstance(lst, list) and lst and isinstance(lst[0], ast.stmt):
+                    _adjacent(lst)
+
+    adj: dict = {}
+    _adjacent(fn.body)
+    n_adj = 0
+    for nm, (a_, lst) in adj.items():
+        k = next(i for i, x in enumerate(lst) if x is a_)
+        iff = lst[k + 1]
+
+        class A(ast.NodeTransformer):
+            def visit_Name(self, n, nm=nm, a_=a_):
+                if isinstance(n.ctx, ast.Load) and n.id == nm:
+                    return ast.copy_location(clone(a_.value), n)
+                return n
+
+        iff.test = A().visit(iff.test)
+        del lst[k]
+        n_adj += 1
+    if n_adj:
+        ast.fix_missing_locations(fn)
+        par = getattr(fn, "_parent", None)
+        set_parents(fn)
+        fn._parent = par
     if not cands:
-        return 0
+        return n_adj
     # every read sits in a test position
     test_ids = set()
     for n in ast.walk(fn):
